@@ -134,7 +134,13 @@ class Gen:
             self.new_ep(r.chance(1, 2))
         elif c < 55:
             e = r.choice(eps)
-            if r.chance(2, 3):
+            if r.chance(1, 4):
+                # flip the deadline of ONE endpoint back and forth: its pairs go (in)compatible repeatedly
+                a, b = r.choice(DEADLINES), r.choice(DEADLINES)
+                for d in [a, b, a, b][: r.range(2, 4)]:
+                    self.emit(f"set-qos {e['name']} deadline={d}")
+                    self.observe(r.chance(1, 2))
+            elif r.chance(2, 3):
                 self.emit(f"set-qos {e['name']} deadline={r.choice(DEADLINES)}")
             elif r.chance(1, 2):
                 self.emit(f"set-qos {e['name']} user_data={r.choice(UDATA)}")
@@ -224,6 +230,17 @@ CORPUS = [
     # D23 (repaired; was: the reader keeps it matched for ever), reader side: the writer's participant falls silent
     PAIR + ["writer w0 pb0 t0A", "reader r0 sb1 t1A", "status r0 subscription_matched", "drop-if from=P0", f"advance {130 * SEC}",
             "status r0 subscription_matched", "matched r0"],
+    # the SAME pair goes incompatible -> matched -> incompatible again (and once more), through the reader's and through the
+    # writer's set_qos: every time the pair must be un-matched on both sides (seeded change C16_c: only the first time)
+    PAIR + ["writer w0 pb0 t0A listener=publication_matched", f"reader r0 sb1 t1A deadline={SEC} listener=subscription_matched", "log", "matched w0", "matched r0",
+            "set-qos r0 deadline=inf", "log", "status w0 publication_matched", "matched w0", "matched r0",
+            f"set-qos r0 deadline={SEC}", "log", "status w0 publication_matched", "matched w0", "status r0 subscription_matched", "matched r0",
+            "trace on", "write w0 1 1", "trace show",
+            "set-qos r0 deadline=inf", "log", "matched w0", f"set-qos r0 deadline={SEC}", "log", "status w0 publication_matched", "matched w0", "matched r0"],
+    PAIR + [f"writer w0 pb0 t0A deadline={5 * SEC}", f"reader r0 sb1 t1A deadline={SEC}", "matched w0", "matched r0",
+            f"set-qos w0 deadline={SEC}", "status w0 publication_matched", "matched w0", "status r0 subscription_matched", "matched r0",
+            f"set-qos w0 deadline={5 * SEC}", "status w0 publication_matched", "matched w0", "status r0 subscription_matched", "matched r0",
+            "trace on", "write w0 1 1", "trace show"],
     # incompatible from the start, compatible later, deleted, participant deleted
     PAIR + ["writer w0 pb0 t0A reliability=best_effort listener=publication_matched", "reader r0 sb1 t1A reliability=reliable",
             f"reader r1 sb1 t1A deadline={SEC} listener=subscription_matched", "log", "matched w0", "set-qos r1 deadline=inf", "log",
